@@ -10,3 +10,25 @@ From Verif Require Import Base.Str Base.Outcome Model.Ast Model.Printer.
 Theorem C13_printer_frame : forall b m, snd (print_model b m) = m_types m.
 Proof. intros b m. reflexivity. Qed.
 
+
+(* History independence, the part that is a fact about the source text: outside the generated ANTLR packages (whose
+   prediction caches the history checks exercise) no call can leave data behind for the next one, because there is no
+   package-level variable that could hold it — the list of package-level variables of pkg/go/transformer, graph,
+   validation, utils and errors is regenerated from the working tree on every run (run/gen_globals.py -> Gen/Globals.v):
+   all of them are error sentinels or interface assertions.  A memo table, a cache, a counter added at package level
+   breaks this obligation. *)
+From Coq Require Import Lia.
+From Verif Require Import Gen.Globals.
+Theorem C13_no_package_level_state : stateful_globals = [] /\ (5 <= length package_vars)%nat.
+Proof. split; [vm_compute; reflexivity|vm_compute; lia]. Qed.
+
+(* ... and the graph-builder objects, which a caller may keep and reuse, have exactly the fields of the pinned tree: the
+   embedded gonum builder and the drawing direction / the label index that NewAuthorizationModelGraph creates afresh for
+   every call.  A cache field added to a builder breaks this obligation. *)
+Theorem C13_builders_have_no_cache_field :
+  builder_fields =
+    [(lit "WeightedAuthorizationModelGraphBuilder", lit "DirectedMultigraphBuilder");
+     (lit "WeightedAuthorizationModelGraphBuilder", lit "drawingDirection");
+     (lit "AuthorizationModelGraphBuilder", lit "DirectedMultigraphBuilder");
+     (lit "AuthorizationModelGraphBuilder", lit "ids")].
+Proof. vm_compute. reflexivity. Qed.
